@@ -24,7 +24,7 @@ Fixpoint lex (t: g) : list tt :=
   | GRef (Some a) t => TP PAmp :: TP PQuote :: TId a :: lex t
   | GTuple l tr => [TG Paren (sep_comma (map lex l) ++ if tr then [TP PComma] else [])]
   | GArray t None => [TG Bracket (lex t)]
-  | GArray t (Some (LNum n)) => [TG Bracket (lex t ++ [TP PSemi; TLit n])]
+  | GArray t (Some (LNum n)) => [TG Bracket (lex t ++ [TP PSemi; TLit (LNat n)])]
   | GArray t (Some (LName s)) => [TG Bracket (lex t ++ [TP PSemi; TId s])]
   | GLt a => [TP PQuote; TId a]
   | GNever => [TP PBang]
